@@ -31,5 +31,6 @@ DecCheck(cfg, st, in, o) ==
                          /\ o.subs[k].addr # in.addr % Pow2(cfg.subs[k].aw) THEN "sub.addr"
   ELSE IF \E k \in sel : in.w_stb = 1 /\ o.subs[k].w_data # in.w_data THEN "sub.w_data"
   ELSE IF ~Matches(ExpRData(cfg, in), o.r_data) THEN "bus.r_data"
+  ELSE IF o.stray # 0 THEN "strobe on a bus that is not a subordinate"
   ELSE "none"
 ====
